@@ -220,6 +220,14 @@ class Lexer:
         if decode_raw:
             try:
                 text = text.decode(parsed_encoding)
+            except LookupError:
+                raise exceptions.CompileException(
+                    "Unknown encoding '%s'" % parsed_encoding,
+                    text.decode("utf-8", "ignore"),
+                    0,
+                    0,
+                    filename,
+                )
             except UnicodeDecodeError:
                 raise exceptions.CompileException(
                     "Unicode decode operation of encoding '%s' failed"
